@@ -67,6 +67,7 @@ fn v3_loop<'a>(
                 && trimmed_range_ok(v, block_with_context.block, lines_of(content_of(block_with_context.block, file_blocks.file_content@))[i], i) // [V3.post.range_is_trimmed_span]
                 && v.code@ == "line-pattern"@,
         forall|k2: PathBuf| k2 != *file_path && #[trigger] old(violations)@.contains_key(k2) ==> final(violations)@.contains_key(k2) && final(violations)@[k2] == old(violations)@[k2], // [V3.post.other_files_untouched]
+        forall|k2: PathBuf| k2 != *file_path && #[trigger] final(violations)@.contains_key(k2) ==> old(violations)@.contains_key(k2), // [V3.post.no_new_files]
         r is Err ==> final(violations)@ == old(violations)@, // [V3.post.err_leaves_report]
 //@tail
     proof {
@@ -102,6 +103,7 @@ fn v3_loop<'a>(
                 && #[trigger] trimmed_range_ok(v, block_with_context.block, lines[i], i)
                 && v.code@ == "line-pattern"@,
             forall|k2: PathBuf| k2 != *file_path && #[trigger] old(violations)@.contains_key(k2) ==> violations@.contains_key(k2) && violations@[k2] == old(violations)@[k2],
+            forall|k2: PathBuf| k2 != *file_path && #[trigger] violations@.contains_key(k2) ==> old(violations)@.contains_key(k2),
         decreases ls@.len() - verif_i,
 //@edit rule=ghost before=<<let ls = verif_lines_enumerate>>
     let ghost lines = lines_of(content_of(block_with_context.block, file_blocks.file_content@));
